@@ -100,14 +100,14 @@ func TestC18Grid(t *testing.T) {
 		if f := checkC18(g, o); f != nil {
 			h.ReportGridFail(t, "C18", f, mustJSON(g))
 		}
-		// ... and a hammer: eight goroutines, 50 short quotients each by the same two 33 000-word divisors (the
+		// ... and a hammer: eight goroutines, 50 short quotients each by the same two divisors of 33 000 and 66 100 words (the
 		// scratch copy of the divisor is giant, the work per call is not): thousands of chances for two calls to ask
 		// for giant scratch at the same moment. Schedules are explored by repetition only.
 		hm := C18Case{Procs: 16, Pool: []h.Spec{
 			{F: "f", D: h.WordsToDigits(append([]uint64{4999999999999999999}, repeatWord(1357913579135791357, 4)...)), E: 3, P: 5 * h.DW, M: 0},
 			{F: "f", D: h.WordsToDigits(append([]uint64{7000000000000000001}, repeatWord(2468024680246802468, 4)...)), E: -2, P: 5 * h.DW, M: 0},
 			{F: "f", D: h.WordsToDigits(append([]uint64{1234567890123456789}, repeatWord(8765432109876543210, 32999)...)), E: 5, P: 33000 * h.DW, M: 0},
-			{F: "f", D: h.WordsToDigits(append([]uint64{8876543210987654321}, repeatWord(3456789012345678901, 32999)...)), E: 0, P: 33000 * h.DW, M: 0},
+			{F: "f", D: h.WordsToDigits(append([]uint64{8876543210987654321}, repeatWord(3456789012345678901, 66099)...)), E: 0, P: 66100 * h.DW, M: 0}, // beyond 2^16 words
 		}}
 		for i := 0; i < 8; i++ {
 			var prog []ConcOp
